@@ -1045,6 +1045,9 @@ func capturedHevc(repo string) []caseLine {
 	for _, h := range ppss {
 		cs = append(cs, caseLine{"HPPS", fmt.Sprintf("ch%d", k), strings.Join(all, ","), h, "0", "-"})
 		k++
+		// the same captured PPS through the model with the multilayer / 3D extension branches
+		cs = append(cs, caseLine{"HPPS2", fmt.Sprintf("ch%d", k), strings.Join(all, ","), h, "0", "-"})
+		k++
 	}
 	for _, c := range slices {
 		c.id = fmt.Sprintf("ch%d", k)
